@@ -21,6 +21,14 @@ def extra(tier, rng):
     add("collide", [srv.dnode(["d"], t), srv.fnode(["d", "readme.txt"], 10, cid="r1", mtime=t + 1), srv.fnode(["d", "README.TXT"], 20, cid="r2", mtime=t + 2),
                     srv.dnode(["d", "Dir"], t + 3), srv.dnode(["d", "DIR"], t + 4), srv.fnode(["d", "Dir", "a"], 1, cid="da", mtime=t + 5),
                     srv.fnode(["d", "DIR", "b"], 2, cid="db", mtime=t + 6), srv.fnode(["d", "a b"], 3, cid="ab1", mtime=t + 7), srv.fnode(["d", "a_b"], 4, cid="ab2", mtime=t + 8)])
+    # a file and a directory whose identifiers collide after mapping (empty and non-empty file, either spelling first)
+    k = 0
+    for fname, dname in [("a b", "a_b"), ("a_b", "a b"), ("x", "X"), ("X", "x"), ("q+1", "q_1")]:
+        for fsize in (0, 5):
+            k += 1
+            add("collide-filedir%d" % k, [srv.dnode(["d"], t), srv.fnode(["d", fname], fsize, cid="cfd%d" % k, mtime=t + 1),
+                                          srv.dnode(["d", dname], t + 2), srv.fnode(["d", dname, "inner.bin"], 3, cid="cfi%d" % k, mtime=t + 3),
+                                          srv.fnode(["d", "zz-empty"], 0, cid="", mtime=t + 4)])
     # directory fan-out around the sector size: records reach and cross a sector boundary
     for n in ([1, 39, 40, 41, 60, 300] if full else [40, 60]):
         add("fan%d" % n, isotrees.wide_tree(rng, n, 0))
